@@ -121,6 +121,7 @@ where
             builder
                 .do_(perturbation)
                 .evaluate_with::<I>()
+                .update_best_individual()
                 .do_(selection::All::new())
                 .scope_(|builder| builder.do_(ls))
                 .update_best_individual()
